@@ -166,6 +166,7 @@ func (s *Server) serve(ctx context.Context, listener net.Listener, handler Modbu
 			readTimeout:    s.ReadTimeout,
 			onErrorFunc:    onErrorFunc,
 		}
+		verifPoint("accept.tracked")
 		s.trackConn(c, true)
 		go func(ctx context.Context, conn *connection) {
 			defer func() {
@@ -175,6 +176,7 @@ func (s *Server) serve(ctx context.Context, listener net.Listener, handler Modbu
 				if err := conn.conn.Close(); err != nil {
 					conn.onErrorFunc(fmt.Errorf("failed to close handler connection, err: %w", err))
 				}
+				verifPoint("conn.closed")
 				s.trackConn(c, false)
 				if s.OnAcceptConnFunc != nil {
 					s.OnCloseConnFunc(ctx, conn.conn.RemoteAddr(), s.isShutdown.Load())
@@ -261,6 +263,7 @@ func (c *connection) handle(ctx context.Context) {
 			continue // nothing read and not idle yet
 		}
 
+		verifPoint("conn.beforeHandled")
 		c.isBeingHandled.Store(true)
 		toSend, closeConn := c.assembler.ReceiveRead(cCtx, received[0:n], n)
 		if toSend != nil {
@@ -303,6 +306,7 @@ func (s *Server) Shutdown(ctx context.Context) error {
 				allIdle = false
 				continue
 			}
+			verifPoint("shutdown.beforeClose")
 			(*c).conn.Close()
 			delete(s.activeConnections, c)
 		}
